@@ -152,7 +152,7 @@ type ContractDB struct {
 	Lines     int
 }
 
-var hdrRE = regexp.MustCompile(`^((?:\(\*?[\w./~\-\[\]]+\)\.)?[\w./~\-$#]+)\s*(?:\(([^)]*)\))?\s*(?:\(([^)]*)\)|([\w]+))?\s*$`)
+var hdrRE = regexp.MustCompile(`^((?:\(\*?[\w./~\-\[\], ]+\)\.)?[\w./~\-$#:]+)\s*(?:\(([^)]*)\))?\s*(?:\(([^)]*)\)|([\w]+))?\s*$`)
 
 func splitNames(s string) []string {
 	var out []string
@@ -759,6 +759,10 @@ func loadContracts(p *Prog, specDir string) (*ContractDB, error) {
 		db.Funcs[fc.Key] = fc
 	}
 	for _, cc := range db.Callsites {
+		if strings.HasPrefix(cc.Callee, "var:") {
+			cc.Key = cc.Callee
+			continue
+		}
 		name := expandModRel(cc.Callee)
 		if fn := p.lookupFunc(name, cc.Pkg); fn != nil {
 			cc.Key = fn.String()
